@@ -1698,6 +1698,34 @@ class OpHarness:
         return out
 
     # -- snapshots of the operator's cells / the spec state at a call-out ---------------------------
+    @staticmethod
+    def _freeze(v):
+        """the content of a mutable container AS IT IS NOW (containers are mutated in place: a snapshot that keeps only the reference shows the
+        state at the END of the step - and `del writers[key]` before or after a call-out looks the same)"""
+        if isinstance(v, ListObj):
+            return ("list", list(v.items) if v.items is not None else None, v.term, v.elem)
+        if isinstance(v, Opaque) and v.kind == "refmap":
+            return ("refmap", dict(v.attrs))
+        if isinstance(v, DictObj):
+            return ("dict", dict(v.d), v.ordered, v.log, v.symbolic, list(v.hist) if v.hist is not None else None)
+        if isinstance(v, SetObj):
+            return ("set", list(v.s), v.log, v.symbolic, list(v.hist) if v.hist is not None else None)
+        return None
+
+    @staticmethod
+    def _thaw(v, fr):
+        if fr is None:
+            return
+        if fr[0] == "list":
+            v.items, v.term, v.elem = (list(fr[1]) if fr[1] is not None else None), fr[2], fr[3]
+        elif fr[0] == "refmap":
+            v.attrs.clear()
+            v.attrs.update(fr[1])
+        elif fr[0] == "dict":
+            v.d, v.ordered, v.log, v.symbolic, v.hist = dict(fr[1]), fr[2], fr[3], fr[4], (list(fr[5]) if fr[5] is not None else None)
+        elif fr[0] == "set":
+            v.s, v.log, v.symbolic, v.hist = list(fr[1]), fr[2], fr[3], (list(fr[4]) if fr[4] is not None else None)
+
     def capture_impl(self, strict=False):
         snap = []
         for n in self.c.cells:
@@ -1714,45 +1742,41 @@ class OpHarness:
                 continue
             get, set_, leaf = found
             v = get(leaf)
-            snap.append((get, set_, leaf, v, (list(v.items) if v.items is not None else None, v.term, v.elem) if isinstance(v, ListObj) else None))
+            snap.append((get, set_, leaf, v, self._freeze(v)))
         return snap
 
     def capture_spec(self, s):
-        return {k: ((list(v.items) if v.items is not None else None, v.term, v.elem) if isinstance(v, ListObj) else v)
-                for k, v in s.fields.items()}, s
+        return {k: (v, self._freeze(v)) for k, v in s.fields.items()}, s
 
     def inv_at(self, it, ctx, isnap, ssnap):
         saved = []
-        for get, set_, leaf, v, lst in isnap:
+        for get, set_, leaf, v, fr in isnap:
             cur = get(leaf)
-            saved.append((set_, leaf, cur, (cur.items, cur.term, cur.elem) if isinstance(cur, ListObj) else None))
-            if lst is not None:
-                v.items, v.term, v.elem = (list(lst[0]) if lst[0] is not None else None), lst[1], lst[2]
+            saved.append((set_, leaf, cur, self._freeze(cur), v, self._freeze(v)))
+            self._thaw(v, fr)
             set_(leaf, v)
         fields, s = ssnap
         sfields = dict(s.fields)
-        ssaved = {k: (v.items, v.term, v.elem) for k, v in s.fields.items() if isinstance(v, ListObj)}
-        for k, v in fields.items():
-            if isinstance(v, tuple) and isinstance(s.fields.get(k), ListObj):
-                o = s.fields[k]
-                o.items, o.term, o.elem = (list(v[0]) if v[0] is not None else None), v[1], v[2]
-            else:
-                s.fields[k] = v
+        ssaved = [(v, self._freeze(v)) for v in list(s.fields.values()) + [v for v, _fr in fields.values()]]
+        for k, (v, fr) in fields.items():
+            self._thaw(v, fr)
+            s.fields[k] = v
         try:
             # effective invariant: once the spec has terminated nothing the operator does is observable
             inv = self.check_inv(it, ctx, "", self.cur_cells_env, s)
             d = self.spec_done(it, ctx, s)
             return natives.mk_or(d, inv)
         finally:
+            for k in list(s.fields):
+                if k not in sfields:
+                    del s.fields[k]
             for k, v in sfields.items():
                 s.fields[k] = v
-            for k, st in ssaved.items():
-                o = s.fields[k]
-                if isinstance(o, ListObj):
-                    o.items, o.term, o.elem = st
-            for set_, leaf, cur, lst in saved:
-                if lst is not None:
-                    cur.items, cur.term, cur.elem = lst
+            for v, fr in ssaved:
+                self._thaw(v, fr)
+            for set_, leaf, cur, curfr, v, vfr in saved:
+                self._thaw(v, vfr)
+                self._thaw(cur, curfr)
                 set_(leaf, cur)
 
     def compare_traces(self, ctx, oid, impl: Trace, spec: Trace):
